@@ -32,6 +32,9 @@ FS_WRITE_PRIMS = {'aio_write': AIO + '._write_piece',
                   'mkstemp': AIO + '.dump',
                   'rename': AIO + '.dump',
                   'replace': AIO + '.dump'}
+# deleting a published file is the business of the two delete helpers only
+FS_DELETE_PRIMS = {'remove', 'unlink', 'rmtree', 'truncate', 'ftruncate'}
+FS_DELETERS = {OPS + '.delete_env', OPS + '.delete_meta'}
 
 
 def run(e: Engine, rep: Report):
@@ -82,6 +85,17 @@ def r41(e: Engine, rep: Report):
                           'file under its final name' % (nm, f.qname),
                           loc=f.loc(n), reason='only in ' +
                           FS_WRITE_PRIMS[nm])
+            if nm in FS_DELETE_PRIMS and isinstance(n.func, ast.Attribute) \
+                    and ast.unparse(n.func.value) in ('os', 'shutil'):
+                rep.evaluations += 1
+                rep.check(f.qname in FS_DELETERS, 'R4.1', f.qname,
+                          'file deletion primitive %s' % nm,
+                          '%s deletes/truncates a file outside the two '
+                          'removal helpers: between that deletion and the '
+                          'next publish a crash leaves the message without '
+                          'its file (an update is no longer atomic)'
+                          % f.qname, loc=f.loc(n),
+                          reason='only in delete_env / delete_meta')
             if nm == 'open' and isinstance(n.func, ast.Name):
                 mode = n.args[1] if len(n.args) > 1 else None
                 for k in n.keywords:
